@@ -111,8 +111,40 @@ def diff_ops(seed, ncalls):
     return n, mism
 
 
+def chunk_model():
+    """Chunked content model vs the real bytes and the real sha256: for concrete (size, POS) pairs and prefix lengths the
+    model's digest-equality (k, POS<k, c if POS<k) must coincide with equality of sha256 over the materialised bytes."""
+    import hashlib
+    import tempfile
+    from symx.concrete import ConcreteEngine
+    from symx.env import RealFS
+    bad = n = 0
+    for size in (12, 1023, 1024, 1025, 2049):
+        poss = sorted({0, 1, size // 2, min(1023, size - 1), min(1024, size - 1), size - 1})
+        model = {'fn:SZ': [[1, size], [2, size]], 'fn:POS': []}
+        for p1 in poss:
+            for p2 in poss:
+                model['fn:POS'] = [[1, p1], [2, p2]]
+                eng = ConcreteEngine(model)
+                sb = tempfile.mkdtemp(prefix='verif-chunk-')
+                try:
+                    fs = RealFS(eng, sb)
+                    b1, b2 = fs.bytes_for(1), fs.bytes_for(2)
+                finally:
+                    shutil.rmtree(sb, ignore_errors=True)
+                for k in sorted({1, 1023, 1024, 1025, size} & set(range(1, size + 1))):
+                    real = hashlib.sha256(b1[:k]).digest() == hashlib.sha256(b2[:k]).digest()
+                    m1 = (k, p1 < k, 1 if p1 < k else 0)
+                    m2 = (k, p2 < k, 2 if p2 < k else 0)
+                    n += 1
+                    if (m1 == m2) != real or len(b1) != size:
+                        bad += 1
+    print('chunked content model: %d (size, POS, POS\', k) cases against real sha256 over the materialised bytes, %d mismatches' % (n, bad))
+    return bad == 0
+
+
 def main():
-    ok = suite_on_model()
+    ok = suite_on_model() and chunk_model()
     total = mism = 0
     for seed in range(int(os.environ.get('VERIF_SEED', '0')), int(os.environ.get('VERIF_SEED', '0')) + 10):
         n, m = diff_ops(seed, 2500)
